@@ -12,7 +12,7 @@ META = {
                    "&self API and path compression stores a value built from the old edge and the recursive result (W2); slot set, group, "
                    "union-find edge and re-queue change together (W3); code under `if CHECKS` is ghost: it neither mutates the e-graph nor "
                    "defines values used outside (W4), so the assertion builds compute the same states; rebuild-before-return (P1) and the "
-                   "orbit rule (P7) are shared with C02.",
+                   "orbit rule (P7) are shared with C02. W5: node bijections stored in the indexes are built by key-preserving operations only; W6: an e-node taken out of the indexes by the work-list handler takes a work-list entry created for it earlier in the same handler along (no stale key); G7: a derived self-symmetry is stored only when both invocations have the same slot set; SI: a node is re-inserted only after slots(class) is a subset of slots(node) or the class was shrunk.",
     "not_decided": "panic-freedom over all histories (about 110 indexing and 60 unwrap/expect/panic sites rest on data-structure invariants); "
                    "the census is reported as information",
     "assumptions": ["no unsafe code in the crate (asserted by the unsafe census on every run)"],
